@@ -22,7 +22,16 @@ fn mutate(rng: &mut Rng, mut b: Vec<u8>) -> Vec<u8> {
     if b.is_empty() {
         return b;
     }
-    match rng.below(5) {
+    match rng.below(7) {
+        5 | 6 => {
+            // a frame-consistent truncation: the body is cut and the Remaining Length says so, so the frame completes and
+            // the parser of that kind meets a body that ends at an arbitrary point (each of its length checks at its boundary)
+            if b.len() > 2 && b[1] < 0x80 && b.len() == 2 + b[1] as usize {
+                let k = rng.below(b[1] as u64) as usize;
+                b.truncate(2 + k);
+                b[1] = k as u8;
+            }
+        }
         0 => {
             let i = rng.below(b.len() as u64) as usize;
             b[i] ^= 1 << rng.below(8);
@@ -798,6 +807,28 @@ fn local_send<R: HRole>(
         }
         // bias 14: a topic with a hand-registered alias, then the same topic without alias in a packet that only
         // just fits: automatic replacement / mapping swaps the short topic for the 3-byte alias property (+1..2 bytes)
+        // bias 13: one topic registered under two aliases in DESCENDING order, the higher alias then re-bound to another
+        // topic, and the first topic published again with automatic replacement: it must go out under the alias it still has
+        if bias == 13 && wv == 5 && qos == 0 && s.status == 2 && rng.chance(1, 6) {
+            if let Some((max, _, _, _)) = s.topic_alias_send.as_ref() {
+                if *max >= 2 {
+                    let hi = *max;
+                    let lo = 1 + rng.below((hi - 1) as u64) as u16;
+                    let mk = |topic: &str, alias: Option<u16>| -> Option<Packet> {
+                        let b = v5_0::GenericPublish::<Pid>::builder().topic_name(topic).ok()?.qos(Qos::AtMostOnce);
+                        let b = match alias { Some(a) => b.props(vec![mqtt::packet::TopicAlias::new(a).unwrap().into()]), None => b };
+                        b.build().ok().map(|x| x.into())
+                    };
+                    for p in [mk("t/1", Some(hi)), mk("t/1", Some(lo)), mk("t/22", Some(hi))].into_iter().flatten() {
+                        run.apply(&Op::Send(p), st);
+                    }
+                    run.apply(&Op::SetFlag(10, true), st);
+                    if let Some(p) = mk("t/1", None) { run.apply(&Op::Send(p), st); }
+                    if let Some(p) = mk("t/22", None) { run.apply(&Op::Send(p), st); }
+                    return;
+                }
+            }
+        }
         if bias == 14 && wv == 5 && qos == 0 && s.topic_alias_send.is_some() && rng.chance(1, 4) {
             let lim = s.maximum_packet_size_send as usize;
             if lim >= 16 && lim < 400 {
